@@ -10,7 +10,7 @@
    cached offset is outside it (boundary, see DESIGN.md). *)
 From Coq Require Import String ZArith List Bool.
 From SK Require Import Model.Skel Model.SkelQ Model.Exn Model.History
-     Proofs.History Gen.Skeleton.
+     Proofs.History Gen.Skeleton Gen.XSeek.
 Import ListNotations.
 Open Scope Z_scope.
 
@@ -125,6 +125,29 @@ Theorem C08_cache_discipline :
   cache_writes_only_on_success sk_apply_to_file = true /\
   hit_branch_seeks sk_apply_to_file = true.
 Proof. vm_compute. split; reflexivity. Qed.
+
+(* ... and the offset the hit branch seeks to IS the cached one: the first
+   fd.seek of apply_to_file (source order), as translated from the source
+   (Gen/XSeek.v), targets the cached offset and nothing else *)
+Theorem C08_cache_hit_seeks_to_cached_offset :
+  forall cached orig newoff len,
+  match apply_seek_sites with
+  | site :: _ => site cached orig newoff len = cached
+  | [] => False
+  end.
+Proof. intros. cbn. reflexivity. Qed.
+
+(* the model's apply_to_file on a hit: position = the cached offset, cache
+   unchanged (this is what the two facts above are for) *)
+Theorem C08_model_hit_uses_cached_offset :
+  forall (content results : Type) (compute : content -> option Z)
+         (fallback : content -> Z) (k : carried) p c o,
+  c_cache k p = Some o ->
+  apply_to_file content compute fallback true k p c = (o, c_cache k).
+Proof.
+  intros content results compute fallback k p c o H.
+  unfold apply_to_file. rewrite H. reflexivity.
+Qed.
 
 Print Assumptions C08_history_independent.
 Print Assumptions C08_history_independent_changing_files.
